@@ -172,6 +172,52 @@ theorem singleContainsMulti_perm (rs : σ → ν → Bool) (s : σ) {ys ys' : Li
 
 end predicates
 
+/-! ### member lists compose: `++` on members is `or` for membership/intersection, `and` over the argument for containment -/
+section laws
+variable {μ ν σ κ : Type}
+
+/-- membership in a multi-shape assembled from two member lists is membership in either -/
+theorem containsCoord_append (rc : μ → κ → Bool) (ms ms' : List μ) (c : κ) :
+    containsCoord rc (ms ++ ms') c = (containsCoord rc ms c || containsCoord rc ms' c) := by
+  simp only [containsCoord_eq_any, List.any_append]
+
+/-- … likewise intersection with a single shape … -/
+theorem intersectsSingle_append (ri : μ → σ → Bool) (ms ms' : List μ) (x : σ) :
+    intersectsSingle ri (ms ++ ms') x = (intersectsSingle ri ms x || intersectsSingle ri ms' x) := by
+  simp only [intersectsSingle_eq_any, List.any_append]
+
+/-- … and intersection with a multi-shape distributes over either side's member list -/
+theorem intersectsMulti_append_left (ri : μ → ν → Bool) (ms ms' : List μ) (ys : List ν) :
+    intersectsMulti ri (ms ++ ms') ys = (intersectsMulti ri ms ys || intersectsMulti ri ms' ys) := by
+  simp only [intersectsMulti_eq_any_any', List.any_append]
+
+theorem intersectsMulti_append_right (ri : μ → ν → Bool) (ms : List μ) (ys ys' : List ν) :
+    intersectsMulti ri ms (ys ++ ys') = (intersectsMulti ri ms ys || intersectsMulti ri ms ys') := by
+  simp only [intersectsMulti_eq_any_any, List.any_append]
+
+/-- containment of a multi-shape argument is a conjunction over the argument's members … -/
+theorem containsMulti_append_right (rs : μ → ν → Bool) (ms : List μ) (ys ys' : List ν) :
+    containsMulti rs ms (ys ++ ys') = (containsMulti rs ms ys && containsMulti rs ms ys') := by
+  simp only [containsMulti_eq_all_any, List.all_append]
+
+/-- … and adding members to the receiver never loses a containment or an intersection -/
+theorem containsMulti_mono (rs : μ → ν → Bool) (ms ms' : List μ) (ys : List ν)
+    (h : containsMulti rs ms ys = true) : containsMulti rs (ms ++ ms') ys = true := by
+  rw [containsMulti_eq_all_any, List.all_eq_true] at *
+  intro y hy
+  rw [List.any_append, h y hy]; rfl
+
+theorem intersectsMulti_mono (ri : μ → ν → Bool) (ms ms' : List μ) (ys : List ν)
+    (h : intersectsMulti ri ms ys = true) : intersectsMulti ri (ms ++ ms') ys = true := by
+  rw [intersectsMulti_append_left, h]; rfl
+
+/-- the empty argument is contained by everything and intersects nothing (Python's `all([])` / `any([])`) -/
+theorem multi_empty_arg (r : μ → ν → Bool) (ms : List μ) :
+    containsMulti r ms [] = true ∧ intersectsMulti r ms [] = false := by
+  simp [containsMulti_eq_all_any, intersectsMulti_eq_any_any]
+
+end laws
+
 /-! ### bounds -/
 
 /-- box `B` encloses box `m` -/
